@@ -395,4 +395,64 @@ theorem all_attlists_consulted (dt : Doctype) (e : QN) :
   · intro defs d hk hd
     exact k3 d ((hmem d).2 ⟨defs, hk, hd⟩)
 
+/-! ### a name declared twice: the first declaration binds (XML 1.0 4.2 for entities, 3.3 for attribute definitions) -/
+
+/-- ENTITIES: whatever is declared after the first declaration of `n` - another declaration of `n` included - does not change
+    what `n` stands for -/
+theorem first_entity_declaration_binds (before after : EntTable) (n : Str) (e : EntDef)
+    (hb : ∀ p ∈ before, p.1 ≠ n) : lookupEnt (before ++ (n, e) :: after) n = some e := by
+  unfold lookupEnt
+  have : (before ++ (n, e) :: after).find? (·.1 == n) = some (n, e) := by
+    induction before with
+    | nil => simp
+    | cons p r ih =>
+      have hp : (p.1 == n) = false := by simpa using hb p (by simp)
+      simp only [List.cons_append, List.find?_cons, hp]
+      exact ih (fun q hq => hb q (by simp [hq]))
+  rw [this]
+
+/-- ... in particular a second declaration of the same entity is without effect, wherever it stands -/
+theorem second_entity_declaration_ignored (before mid after : EntTable) (n : Str) (e e' : EntDef)
+    (hb : ∀ p ∈ before, p.1 ≠ n) :
+    lookupEnt (before ++ (n, e) :: (mid ++ (n, e') :: after)) n = lookupEnt (before ++ (n, e) :: (mid ++ after)) n := by
+  rw [first_entity_declaration_binds before _ n e hb, first_entity_declaration_binds before _ n e hb]
+
+/-- a declared entity hides the predefined one of the same name only through its own declaration: without any declaration of
+    `n` the predefined table answers -/
+theorem undeclared_falls_back_to_predefined (t : EntTable) (n : Str) (h : ∀ p ∈ t, p.1 ≠ n) :
+    lookupEnt t n = (predefined.find? (·.1 == n)).map (·.2) := by
+  unfold lookupEnt
+  have : t.find? (·.1 == n) = none := by
+    rw [List.find?_eq_none]
+    intro p hp
+    simpa using h p hp
+  rw [this]
+
+/-- ATTRIBUTE DEFINITIONS: merging keeps, for every name, the definition that came first -/
+theorem mergeDefs_keeps_first (acc : List AttDef) (d : AttDef) (h : acc.any (·.name == d.name) = true) :
+    (if acc.any (·.name == d.name) then acc else acc ++ [d]) = acc := by
+  rw [if_pos h]
+
+theorem foldl_merge_prefix : ∀ (l acc : List AttDef),
+    ∃ r, l.foldl (fun acc d => if acc.any (·.name == d.name) then acc else acc ++ [d]) acc = acc ++ r
+  | [], acc => ⟨[], by simp⟩
+  | d :: l, acc => by
+    simp only [List.foldl_cons]
+    by_cases h : acc.any (·.name == d.name) = true
+    · rw [if_pos h]; exact foldl_merge_prefix l acc
+    · rw [if_neg h]
+      obtain ⟨r, hr⟩ := foldl_merge_prefix l (acc ++ [d])
+      exact ⟨d :: r, by rw [hr]; simp⟩
+
+/-- the first definition of an attribute name for an element type is the one `attDefsFor` reports: definitions already
+    collected are never replaced or reordered by what follows -/
+theorem first_attribute_definition_binds (l : List AttDef) (d : AttDef) :
+    ∃ r, (d :: l).foldl (fun acc x => if acc.any (·.name == x.name) then acc else acc ++ [x]) [] = d :: r := by
+  simp only [List.foldl_cons, List.any_nil, Bool.false_eq_true, if_false, List.nil_append]
+  obtain ⟨r, hr⟩ := foldl_merge_prefix l [d]
+  exact ⟨r, by rw [hr]; rfl⟩
+
+example : lookupEnt [(['e'], .internal [.text ['1']]), (['x'], .internal []), (['e'], .internal [.text ['2']])] ['e'] =
+    some (.internal [.text ['1']]) := by decide
+
 end XmlRs.C11
